@@ -547,6 +547,66 @@ func isLocalAddr(v ssa.Value) bool {
 	}
 }
 
+// isFrameCapture: addr lies in a variable that closure f captured from its parent's frame, where the variable is a
+// local of the parent and every closure capturing it is only called or deferred there (never started as a goroutine,
+// stored or returned): the write stays inside one invocation of the parent, like a write to its own local.
+func isFrameCapture(f *ssa.Function, addr ssa.Value) bool {
+	for {
+		switch x := addr.(type) {
+		case *ssa.FieldAddr:
+			addr = x.X
+			continue
+		case *ssa.IndexAddr:
+			if _, isPtr := x.X.Type().Underlying().(*types.Pointer); isPtr {
+				addr = x.X
+				continue
+			}
+		}
+		break
+	}
+	fv, ok := addr.(*ssa.FreeVar)
+	if !ok || f.Parent() == nil {
+		return false
+	}
+	idx := -1
+	for k, x := range f.FreeVars {
+		if x == fv {
+			idx = k
+		}
+	}
+	var al *ssa.Alloc
+	eachInstr(f.Parent(), func(i ssa.Instruction) {
+		if mc, ok := i.(*ssa.MakeClosure); ok && mc.Fn == ssa.Value(f) && idx >= 0 {
+			al, _ = mc.Bindings[idx].(*ssa.Alloc)
+		}
+	})
+	if al == nil {
+		return false
+	}
+	for _, ref := range *al.Referrers() {
+		mc, ok := ref.(*ssa.MakeClosure)
+		if !ok {
+			continue
+		}
+		for _, use := range *mc.Referrers() {
+			switch u := use.(type) {
+			case *ssa.Defer:
+				if u.Call.Value != ssa.Value(mc) {
+					return false
+				}
+			case *ssa.Call:
+				if u.Call.Value != ssa.Value(mc) {
+					return false
+				}
+			case *ssa.DebugRef:
+			default:
+				return false
+			}
+		}
+	}
+	return true
+}
+
 // isNilPredicate: a module function of one reflect.Value parameter returning bool whose body asks (reflect.Value).IsNil.
 func isNilPredicate(cal *ssa.Function) bool {
 	if cal == nil || cal.Blocks == nil || !strings.HasPrefix(pkgPathOf(cal), Mod) || len(cal.Params) != 1 || cal.Signature.Results().Len() != 1 {
